@@ -1,3 +1,13 @@
-From V Require Import Base.Bytes Base.Obs.
-Definition case := nat.
-Definition run (c : case) : obs := OL [].
+From Coq Require Import List Arith.
+Import ListNotations.
+From V Require Import Base.Bytes Base.Obs Model.Depth Gen.Sites_C11.
+(* an include graph rendered from its root file, the depth limit read from the source *)
+Record case := { c_files : files; c_root : nat }.
+(* a chain f0 -> f1 -> ... -> f(k) written compactly *)
+Definition chain (k : nat) : files := map (fun i => [IInc (S i)]) (seq 0 k) ++ [[]].
+Definition run (c : case) : obs :=
+  match render (c_files c) max_include_depth (c_root c) with
+  | Ok b => OL [OS "ok"; OA b]
+  | ErrDepth => OL [OS "depth"]
+  | ErrMissing => OL [OS "missing"]
+  end.
